@@ -287,6 +287,7 @@ def _field_setters(ctx):
     ok = bool(chk) and t in ("%s not in (0, -1)" % v_, "%s != 0 and %s != -1" % (v_, v_), "%s not in (-1, 0)" % v_)
     ctx.ob("C10.R6", T + ":bit_concat.setter", "what remains of the value after all parts were filled must be 0 (or -1 for a negative value): otherwise the value does not fit and ValueError is raised", ok, construct="concat-leftover-checked", detail=t)
     _encoder_operands(ctx)
+    _rotated_immediate(ctx)
 
 
 def encoder_operand_sites(project):
@@ -333,3 +334,48 @@ def _encoder_operands(ctx):
     for rel, cname, fname, kind, node, txt in sites:
         ctx.ob("C10.R7", "%s:%s.%s" % (rel, cname, fname), "the instruction's operand is neither masked nor overwritten while it is encoded", False, construct="%s:%s" % (kind, txt[:50]), node=node, detail="%s: %s" % (kind, txt))
     ctx.ob("C10.R7", "ppci/arch/*", "encoders scanned for masked / overwritten operands", not sites, construct="scan-encoder-operands")
+
+
+def _rotated_immediate(ctx):
+    """R8: the ARM 12-bit modified immediate (8-bit value rotated right by twice a 4-bit count).  encode_imm32 is the
+    only gate in front of that field: the instruction encoders store what it returns without another check, and
+    Token.__setitem__ would silently wrap a small negative number into the 12 bits."""
+    from .. import sym
+    ctx.rule("C10.R8", "encode_imm32 returns a field only for a value some even rotation of which fits 8 bits - every return lies under that test inside the search over all 16 rotations - and raises otherwise", floor=5)
+    fn = ctx.fn(B, "encode_imm32")
+    site = B + ":encode_imm32"
+    v = fn.args.args[0].arg
+    loops = [l for l in walk_no_nested(fn) if isinstance(l, ast.For)]
+    ok = len(loops) == 1 and norm(loops[0].iter) == "range(16)"
+    ctx.ob("C10.R8", site, "all 16 rotation counts are tried", ok, construct="all-rotations", detail=norm(loops[0].iter) if loops else "")
+    rets = [r for r in walk_no_nested(fn) if isinstance(r, ast.Return)]
+    outside = [r for r in rets if not (loops and any(x is r for x in ast.walk(loops[0])))]
+    ctx.ob("C10.R8", site, "no value is returned without the search (no shortcut for small or negative arguments: a negative number would be wrapped into the field by the token)", bool(rets) and not outside, construct="no-return-outside-search",
+           node=outside[0] if outside else None, detail="; ".join("line %d: return %s" % (r.lineno, norm(r.value)) for r in outside))
+    if loops:
+        i = norm(loops[0].target)
+        env = sym.single_assign_env(loops[0])
+        good = []
+        for r in rets:
+            if r in outside:
+                continue
+            conds = [(" ".join(norm(sym.deep_inline(c, env)).split()), pol) for c, pol in sym.conjuncts(r, fn, {})]
+            fits = any(pol is True and c in ("rotate_left(%s, %s * 2) & 4294967040 == 0" % (v, i), "rotate_left(%s, %s * 2) & 0xFFFFFF00 == 0" % (v, i)) for c, pol in conds)
+            val = " ".join(norm(sym.deep_inline(r.value, env)).split())
+            packed = val in ("%s << 8 | rotate_left(%s, %s * 2) & 255" % (i, v, i), "%s << 8 | rotate_left(%s, %s * 2) & 0xFF" % (i, v, i))
+            good.append(fits and packed)
+        ctx.ob("C10.R8", site, "the returned field is (rotation << 8) | low byte of the rotated value, under the test that the rotated value has no bit above bit 7", bool(good) and all(good), construct="packed-under-fit-test")
+    last = fn.body[-1]
+    ctx.ob("C10.R8", site, "a value no rotation of which fits raises ValueError", isinstance(last, ast.Raise) and "ValueError" in norm(last), construct="raises")
+    rl = ctx.fn(B, "rotate_left")
+    a, n = rl.args.args[0].arg, rl.args.args[1].arg
+    ret = [r for r in walk_no_nested(rl) if isinstance(r, ast.Return)]
+    ok = len(ret) == 1 and " ".join(norm(ret[0].value).split()) == "rotate_right(%s, 32 - %s)" % (a, n)
+    ctx.ob("C10.R8", B + ":rotate_left", "rotate_left(v, n) is rotate_right(v, 32 - n)", ok, construct="rotate-left")
+    rr = ctx.fn(B, "rotate_right")
+    a, n = rr.args.args[0].arg, rr.args.args[1].arg
+    env = sym.single_assign_env(rr)
+    ret = [r for r in walk_no_nested(rr) if isinstance(r, ast.Return)]
+    val = " ".join(norm(sym.deep_inline(ret[0].value, env)).split()) if len(ret) == 1 else ""
+    ok = val in ("%s >> %s | (%s & 2 ** %s - 1) << 32 - %s" % (a, n, a, n, n), "%s >> %s | (%s & (1 << %s) - 1) << 32 - %s" % (a, n, a, n, n))
+    ctx.ob("C10.R8", B + ":rotate_right", "rotate_right(v, n) moves the low n bits of v to the top of a 32-bit word: (v >> n) | ((v & (2**n - 1)) << (32 - n))", ok, construct="rotate-right-32", detail=val)
